@@ -98,6 +98,12 @@ def run(ctx):
                         cls, desc = "max", "if old < new { cell = new }"
                     elif elementwise_reset(ctx, m, field):
                         cls, desc = "reset", "in-place zero fill over iter_mut()"
+                    elif m.arg_count == 2:
+                        # a cell-wise walk over self and other: `if theirs > *mine { *mine = theirs }` is the in-place max
+                        from .common import cellwise_merge
+                        cm_ = cellwise_merge(ctx, m, field)
+                        if cm_.get("form") == "in-place" and cm_.get("elem", ("x",))[:2] == ("op", "max"):
+                            cls, desc = "max", cm_["why"]
                 if isinstance(cls, tuple):
                     cls, desc = cls
                 okc = cls in (want, "reset")
@@ -237,6 +243,21 @@ def union_transfer_rules(ctx):
                         if st.k == "assign" and st.place.is_local() and st.place.local == lv[0][1] and bj in cu.natural_loop(h):
                             fs = {repr(c): tr for c, tr in atomic_facts(cu, prog, bj, tb)}
                             gd = fv(fs, mk("Eq", mk("Rem", cnt, ("field", otherp, "bucketsize")), const(0))) is True and fv(fs, mk("Lt", const(0), cnt)) is True
+                            if not gd:
+                                # a running slot counter instead of `counter % bucketsize`: a second carried variable s with s = 0 before the
+                                # loop, `if s == bucketsize { s = 0; bucket += 1 }` at the top of every iteration and `s += 1` after it
+                                # — s == bucketsize holds exactly at the slot indices that are positive multiples of bucketsize
+                                for c_, tr_ in atomic_facts(cu, prog, bj, tb):
+                                    if tr_ and c_[0] == "op" and c_[1] == "Eq" and len(c_[2]) == 2 and ("field", otherp, "bucketsize") in c_[2]:
+                                        sv = [y for y in c_[2] if y != ("field", otherp, "bucketsize")][0]
+                                        if sv[0] == "loopvar" and sv[2] == h and isinstance(sv[1], int):
+                                            s_init, s_upd = tb.loop_init(sv[1], h), tb.loop_update(sv[1], h)
+                                            alts_ = set(map(repr, s_upd[1])) if s_upd[0] == "phi" else {repr(s_upd)}
+                                            folded = s_upd == mk("Add", const(1), ("phi", tuple(sorted((const(0), sv), key=repr)))) or \
+                                                (s_upd[0] == "op" and s_upd[1] == "Add" and len(s_upd[2]) == 2 and const(1) in s_upd[2]
+                                                 and any(y[0] == "phi" and set(map(repr, y[1])) == {repr(const(0)), repr(sv)} for y in s_upd[2]))
+                                            if s_init == const(0) and (folded or alts_ == {repr(const(1)), repr(mk("Add", sv, const(1)))}):
+                                                gd = True
                 okc = inc_ok and gd and loop_exits_only_on_exhaustion_or_err(cu, h)
                 why = "bucket counter init=%s update=%s guard-ok=%s" % (fmt(init), fmt(upd), gd)
             elif okc and i1 == mk("Div", ("enum_idx", ("field", otherp, "table")), ("field", otherp, "bucketsize")):
